@@ -219,7 +219,7 @@ class TimeShiftMonitor:
 # ------------------------------------------------------------------------------------------------
 NS_QUICK = [1, 2, 3, 5, 16, 17, 101, 256, 1009, 4096]
 SSHAPES = [(), (3,), (4, 2), (2, 1, 3), (2, 2), (3, 3, 1)]
-SHIFT_KINDS = ["int", "frac", "quantity", "long", "mixed", "zeros_among", "half"]
+SHIFT_KINDS = ["int", "frac", "quantity", "long", "mixed", "zeros_among", "half", "quantity_whole"]
 SHAPE_KINDS = ["scalar", "full", "lower", "len1_first", "len1_last", "len1_all"]
 
 
@@ -284,14 +284,28 @@ def wl_shift(ctx, idx, rng):
         else:
             clsname = gen.pick(rng, ["RadioSignal", "IntensitySignal"])
     rate = gen.rand_rate(rng, lo=0, hi=8) if kind != "quantity" else gen.rand_rate(rng, lo=0, hi=9.6)
+    whole = None
+    if kind == "quantity_whole":
+        # a delay that is a whole number of samples, written in the time unit that pairs with the rate's unit (R MHz x T us = R*T
+        # samples exactly, also in float64): the conversion to samples must not land just above the integer
+        ru, tu = [(u.MHz, u.us), (u.GHz, u.ns), (u.kHz, u.ms), (u.Hz, u.s), (u.MHz, u.ms)][int(rng.integers(5))]
+        R = int(rng.integers(1, 40))
+        rate = R * ru
+        whole = tu
     x = gen.rand_data(rng, (N,) + sshape, dtype)
     # plant tones / impulses so wrap-around is visible in every element
     if N >= 3 and rng.random() < 0.5:
         x[0] += 5
         x[-1] -= 5
     sig, desc = gen.make_signal(rng, clsname, N, data=x, rate=rate, dask=use_dask, mem="rand")
-    s = make_shift(rng, N, sshape, kind, shape_kind)
+    s = make_shift(rng, N, sshape, kind if whole is None else "int", shape_kind)
     sq = s
+    if whole is not None:
+        T = np.round(np.asarray(s, dtype=float) / R) if abs(np.max(np.abs(s))) >= R else np.sign(s)
+        T = np.where(T == 0, 1.0, T)
+        sq = (T if np.ndim(T) else float(T)) * whole
+        s = np.asarray(T) * R * (1e3 if (whole is u.ms and rate.unit is u.MHz) else 1.0)
+        s = s if np.ndim(s) else float(s)
     if kind == "quantity":
         # the same delay written in units from ns to days (numeric values from 1e-15 to 1e+9)
         sq = (s / sig.sample_rate).to(gen.pick(rng, [u.s, u.ms, u.us, u.ns, u.min, u.hr, u.day, u.ks]))
@@ -300,7 +314,16 @@ def wl_shift(ctx, idx, rng):
     ctx.describe_case(desc)
     ctx.sample(desc)
     before = ctx.counters["time_shift_events"]
-    out, exc = ctx.call("time_shift", pb.time_shift, sig, sq, crop=crop)
+    if kind == "zeros_among" and np.ndim(sq) and rng.random() < 0.5:
+        sq = np.where(sq == 0, -0.0, sq)       # negative zero entries (the negation of a delay table): still "no shift"
+    if use_dask and N >= 1009 and rng.random() < 0.5:
+        import dask
+        with dask.config.set({"array.chunk-size": "4KiB"}):
+            out, exc = ctx.call("time_shift", pb.time_shift, sig, sq, crop=crop, where="time_shift under array.chunk-size=4KiB",
+                                features={"dask_config": "small_chunk_size"})
+        ctx.count("dask_small_chunk_config")
+    else:
+        out, exc = ctx.call("time_shift", pb.time_shift, sig, sq, crop=crop)
     if exc is None and ctx.counters["time_shift_events"] == before:
         ctx.inconclusive_because("time_shift probe did not fire")
     if exc is None:
